@@ -207,6 +207,22 @@ func TestGvcReplay(t *testing.T) {
 	}
 }
 `}},
+	{"v3.(*Executor).RunTask$1", "exclusive(t)", scenario{pkgRel: "", what: "two tasks depend on a task with sources: the second call of it answers 'up to date' while the first is still running its command, and its dependant starts",
+		src: gvcHeader + `
+func TestGvcReplay(t *testing.T) {
+	dir := t.TempDir()
+	gvcWrite(t, dir, "Taskfile.yml", "version: '3'\nsilent: true\ntasks:\n  default:\n    deps: [x, y]\n  x:\n    deps: [d]\n    cmds: [\"echo x-start >> trace.txt\"]\n  y:\n    deps: [d]\n    cmds: [\"echo y-start >> trace.txt\"]\n  d:\n    sources: [src.txt]\n    cmds: [\"sleep 1\", \"echo d-done >> trace.txt\"]\n")
+	gvcWrite(t, dir, "src.txt", "1")
+	var out bytes.Buffer
+	if err := gvcExec(t, dir, &out).Run(context.Background(), &task.Call{Task: "default"}); err != nil {
+		t.Fatalf("run: %v", err)
+	}
+	data, _ := os.ReadFile(filepath.Join(dir, "trace.txt"))
+	if !strings.HasPrefix(string(data), "d-done") {
+		t.Fatalf("GVC-REPLAY-REPRODUCED: a dependant started before its dependency had finished: %q", string(data))
+	}
+}
+`}},
 	{"v3.(*Executor).RunTask$1", "precondsOK(call)", scenario{pkgRel: "", what: "--force runs the commands of a task whose precondition fails",
 		src: gvcHeader + `
 func TestGvcReplay(t *testing.T) {
